@@ -139,3 +139,87 @@ PROPS["C08"] = {
               "thorough": {"evaluations": 5000000, "distinct": 100000}},
     "assumptions": ["values containing NaN are a listed deviation: their law failures are reported under it, all NaN-free values are judged strictly"],
 }
+
+
+def zb_plan(thorough_layers=(), miri_scale=0.002, quick_scale=1.0):
+    def plan(tier):
+        steps = [{"engine": "zb", "features": "", "layer": "monitor", "scale": quick_scale if tier == "quick" else 1.0}]
+        if tier == "thorough":
+            for layer in thorough_layers:
+                st = {"engine": "zb", "features": "", "layer": layer}
+                if layer == "miri":
+                    st["scale"] = miri_scale
+                    st["args"] = ["--tier", "quick"]
+                elif layer in ("asan", "tsan"):
+                    st["scale"] = 0.3
+                    st["args"] = ["--tier", "quick"]
+                elif layer == "release":
+                    st["scale"] = 0.5
+                steps.append(st)
+        return steps
+    return plan
+
+
+PROPS["C10"] = {
+    "level": "exploration",
+    "plan": zb_plan(("release", "miri")),
+    "rule": ("EVERY string over the 10-symbol alphabet {a Z 0 _ - . : / e-acute NUL} up to length 5 (quick; 7 thorough) plus 254..257-byte "
+             "constructions and UUID-shaped GUIDs, for the 9 validated string types, through TryFrom<&str>, TryFrom<String>, and (sampled) "
+             "from_static_str, TryFrom<Value> and serde Deserialize from D-Bus bytes; accept/reject compared with the reference "
+             "recognisers; distinct = distinct strings"),
+    "gates": {"quick": {"evaluations": 500000, "distinct": 100000}, "thorough": {"evaluations": 50000000, "distinct": 10000000}},
+    "exhaustive_note": "all strings over the alphabet up to classes.exhaustive_max_len were enumerated (count in classes.exhaustive_strings_total)",
+    "assumptions": ["UniqueName additionally accepts the literal org.freedesktop.DBus (documented special case)",
+                    "property names: any 1..255-byte string (the specification gives no grammar; this is what the library documents)"],
+}
+
+PROPS["C11"] = {
+    "level": "exploration",
+    "plan": zb_plan(("release", "miri")),
+    "rule": ("random messages (4 types x random optional-field subsets x all valid flag subsets x {LE,BE} x bodies of 0..4 generated "
+             "arguments incl. fds) built with message::Builder; the bytes are parsed by the independent reference message parser "
+             "(layout, field types, zero padding, 8-aligned body, declared lengths, body bytes == reference marshalling) and "
+             "re-parsed by the library (every header accessor, body signature and value); distinct = distinct (type, flags, "
+             "field set, endian, body signature)"),
+    "gates": {"quick": {"evaluations": 15000, "distinct": 5000}, "thorough": {"evaluations": 1000000, "distinct": 100000}},
+    "assumptions": ["a body that is one struct argument cannot be told from several arguments through the library's Signature (documented outer parentheses); both spellings accepted there"],
+}
+
+PROPS["C12"] = {
+    "level": "exploration",
+    "plan": zb_plan(("release", "asan", "miri")),
+    "rule": ("hostile message bytes (every truncation of a valid message, 0..15-byte inputs, 1-2 stacked structure-aware mutations, header-byte "
+             "edits of endian/type/flags/version/lengths/serial, field retyping, invalid names in header fields, random bytes) given to "
+             "Message::from_bytes in both endian contexts; on success every accessor, body(), body().deserialize::<Structure>(), Display, "
+             "Debug and MatchRule::matches with argN rules are exercised under catch_unwind + journal + allocation bound; distinct = "
+             "distinct (input kind, body signature, type)"),
+    "gates": {"quick": {"evaluations": 200000, "distinct": 5000, "class:accepted": 20000, "class:rejected": 50000},
+              "thorough": {"evaluations": 10000000, "distinct": 100000}},
+    "assumptions": [],
+}
+
+PROPS["C13"] = {
+    "level": "exploration",
+    "plan": zb_plan(("release",)),
+    "rule": ("valid messages carrying each unknown header field code 10..255 (rotating over 10 payload types; all pairs in thorough, at "
+             "varying array positions), each unknown flag bit (alone and with known ones), each unknown message type: parsed with "
+             "Message::from_bytes (known fields and body must be intact) and placed between normal messages on a scripted connection "
+             "with random read cuts (all normal messages must still be delivered in order, no error before EOF); distinct = distinct "
+             "(kind, code) x schedule"),
+    "gates": {"quick": {"evaluations": 600, "distinct": 300}, "thorough": {"evaluations": 5000, "distinct": 2000}},
+    "exhaustive_note": "every unknown field code, flag bit and (thorough) message type value is covered at least once",
+    "assumptions": ["whether an unknown-type message itself surfaces as a stream item is not judged"],
+}
+
+PROPS["C14"] = {
+    "level": "exploration",
+    "plan": zb_plan(("release", "asan", "miri")),
+    "rule": ("reference-marshalled message sequences (1..12 messages, 16 B..70 KiB, both endians, 0..3 fds) delivered through the scripted "
+             "transport: ALL single cuts and all pairs of cuts (first 100 offsets in quick) of a 3-message stream, 1-byte reads, "
+             "fixed-size and random cut plans incl. cuts around the 16-byte header, under 5 scheduler biases; received == sent "
+             "(bytes, fd identity by (dev,ino), order, increasing recv_position, end after EOF); headers declaring > 128 MiB must "
+             "produce an error at quiescence without a large allocation; distinct = distinct schedule fingerprints"),
+    "gates": {"quick": {"evaluations": 5000, "distinct": 1000}, "thorough": {"evaluations": 60000, "distinct": 10000}},
+    "assumptions": ["the scripted transport cuts before every fd-carrying message as the kernel does; how many bytes each recvmsg asks for is not judged",
+                    "handshake-leftover hand-off is exercised under C17"],
+}
